@@ -238,6 +238,29 @@ def check_tokens(tokens, rng, failures, counters, zero_choices=None):
                 return
 
 
+def check_from_receiver(failures, counters):
+    """(d) single-stream engines made with FormulaEngine.from_receiver: the stream's nones_are_zeros setting is the
+    one given (a missing sample counts as 0 exactly when it was asked for), a present value passes through."""
+    from frequenz.quantities import Quantity
+    from frequenz.sdk.timeseries.formula_engine._formula_engine import FormulaEngine
+    for z in (False, True):
+        try:
+            eng = FormulaEngine.from_receiver("m1", DummyReceiver(), Quantity, nones_are_zeros=z)
+            steps, fetchers = eng._builder.finalize()  # pylint: disable=protected-access
+        except Exception as e:  # pylint: disable=broad-except
+            failures.append({"clause": "build", "detail": f"from_receiver(nones_are_zeros={z}): {type(e).__name__}: {e}"})
+            return
+        for v in list(MISSING) + [Fraction(7), Fraction(-3), Fraction(0)]:
+            counters["evaluations"] += 1
+            counters["ho"] += 1
+            got = run_steps(steps, fetchers, {name: v for name in fetchers})
+            want = (Fraction(0) if z else UNDEF) if (v is None or not isinstance(v, Fraction)) else v
+            if not compare(got, want):
+                failures.append({"clause": "value", "detail": f"from_receiver(nones_are_zeros={z}) with input {v}: engine {got}, "
+                                                              f"expected {want}"})
+                return
+
+
 async def check_higher_order(rng, failures, counters, budget_end):
     """Expression trees built through the operator/method API of formula engines."""
     from frequenz.quantities import Quantity
@@ -391,6 +414,8 @@ def run(req):
             samples.append({"formula": render(toks)})
         check_tokens(toks, rng, failures, counters)
     # (c) the composition API
+    if not failures:
+        check_from_receiver(failures, counters)
     if not failures:
         asyncio.run(check_higher_order(rng, failures, counters, t0 + budget))
     out = {"status": "failed" if failures else "ok", "evaluations": counters["evaluations"], "distinct": len(distinct) + counters["ho"],
